@@ -40,7 +40,7 @@ PROPS["C01"] = dict(
         "Panacea.C01.recInv_reachable", "Panacea.C01.addRecord_acknowledged", "Panacea.C01.acked_record_forever",
         "Panacea.C01.offsets_dense", "Panacea.C01.record_table_append_only",
     ],
-    streams=[dict(name="aol", quick=150, thorough=3000, thorough_seeds=3)],
+    streams=[dict(name="aol", quick=150, thorough=3000, thorough_seeds=3), dict(name="genesis", quick=12, thorough=300, thorough_seeds=2)],
     trusted=AOL_TRUSTED,
     assumptions=[
         "RecInv s0 (records and total_records agree) for the start state: proved for the empty genesis and preserved by every message",
@@ -77,7 +77,7 @@ PROPS["C04"] = dict(
                  "Panacea.C04.update_replay_reduction", "Panacea.C04.update_replay_rejected",
                  "Panacea.C04.deactivate_replay_rejected", "Panacea.C04.create_replay_rejected",
                  "Panacea.Did.signBytes_injective"],
-    streams=DID_STREAM, trusted=DID_TRUSTED,
+    streams=DID_STREAM + [dict(name="genesis", quick=12, thorough=300, thorough_seeds=2)], trusted=DID_TRUSTED,
     assumptions=DID_ASSUME + ["SigBinds (a signature verifies for at most one message) for update_replay_rejected only; the reduction form has no such hypothesis"],
 )
 PROPS["C05"] = dict(
@@ -270,3 +270,29 @@ PROPS["C19"] = dict(
              "upgrade stream (support for the dynamic half): the v2.2.1 plan crossing its height on a populated real application, custom dumps before/after, module version map, done height, re-opening the database before/at/after the height"],
     assumptions=["partial: x/upgrade machinery, store loader and restart behaviour are exercised, not proved"],
 )
+
+
+# ---- regenerated model (Generated/Code.lean, translated from /repo on every run) and its refinement theorems ----
+# Each entry: Lean modules to build and theorems to audit, in addition to the property's own.
+_RC = "Panacea.Refine.CompKey"
+_RA = "Panacea.Refine.Aol"
+_RT = "Panacea.Refine.AolTypes"
+R_COMPKEY = [f"{_RC}.encode_refines", f"{_RC}.decode_refines"]
+R_AOL = [f"{_RA}.createTopic_refines", f"{_RA}.addWriter_refines", f"{_RA}.deleteWriter_refines",
+         f"{_RA}.addRecord_refines", f"{_RA}.genStep_abs", f"{_RA}.genRun_abs"]
+R_VB = [f"{_RT}.createTopic_validateBasic_refines", f"{_RT}.addWriter_validateBasic_refines",
+        f"{_RT}.deleteWriter_validateBasic_refines", f"{_RT}.addRecord_validateBasic_refines"]
+R_SIGNERS = [f"{_RT}.createTopic_getSigners_refines", f"{_RT}.addWriter_getSigners_refines",
+             f"{_RT}.deleteWriter_getSigners_refines", f"{_RT}.addRecord_getSigners_refines"]
+REFINE = {
+    "C18": ([_RC], R_COMPKEY),
+    "C01": ([_RA], R_COMPKEY + R_AOL),
+    "C13": ([_RA], R_COMPKEY + R_AOL),
+    "C02": ([_RA, _RT], R_AOL + R_SIGNERS),
+    "C15": ([_RT], R_SIGNERS),
+    "C16": ([_RT], R_VB),
+    "C17": ([_RT, _RC], R_VB + R_SIGNERS + R_COMPKEY),
+}
+REFINE_TRUSTED = [
+    "translator /verif/extract/code.go (Go → Lean `do`-blocks, statement by statement; anything it does not understand becomes `Go.unsupported`, which no refinement proof survives) and the meaning of its primitives lean/Panacea/Go/{Prelude,Lib}.lean (slices as lists with bounds checks that panic, `int` as unbounded Int, uint64 wrap-around, pointers as Option with panicking dereference, KV store as a sorted association list, bech32 and the protobuf codec as parameters — the latter with the two laws of LawfulProto)",
+]
